@@ -441,29 +441,17 @@ class Arc2D(object):
 
     def _calculate_min_max(self):
         """Calculate maximum and minimum Point2D for this object."""
-        # get the quadrants of the start and end of the arc
-        start_quad = self._angle_quadrant(self._a1)
-        end_quad = self._angle_quadrant(self._a2)
-        # get the min and max of the start and end points
-        x_cor = (self._cos_a1 * self.r, self._cos_a2 * self.r)
-        y_cor = (self._sin_a1 * self.r, self._sin_a2 * self.r)
-        mnx, mny = min(x_cor), min(y_cor)
-        mxx, mxy = max(x_cor), max(y_cor)
-        # build extremum matrices
         r = self.r
-        x_max = ((mxx, r, r, r), (mxx, mxx, r, r),
-                 (mxx, mxx, mxx, r), (mxx, mxx, mxx, mxx))
-        y_max = ((mxy, mxy, mxy, mxy), (r, mxy, r, r),
-                 (r, mxy, mxy, r), (r, mxy, mxy, mxy))
-        x_min = ((mnx, -r, mnx, mnx), (mnx, mnx, mnx, mnx),
-                 (-r, -r, mnx, -r), (-r, -r, mnx, mnx))
-        y_min = ((mny, -r, -r, mny), (mny, mny, -r, mny),
-                 (mny, mny, mny, mny), (-r, -r, -r, mny))
-        # select the desired values from the extremum matrices
-        min_pt = (x_min[end_quad][start_quad], y_min[end_quad][start_quad])
-        max_pt = (x_max[end_quad][start_quad], y_max[end_quad][start_quad])
-        self._min = Point2D(min_pt[0] + self.c.x, min_pt[1] + self.c.y)
-        self._max = Point2D(max_pt[0] + self.c.x, max_pt[1] + self.c.y)
+        xs = [self._cos_a1 * r, self._cos_a2 * r]
+        ys = [self._sin_a1 * r, self._sin_a2 * r]
+        # add the axis extremes of the circle that lie on the arc
+        for ang, x, y in ((0, r, 0), (math.pi / 2, 0, r),
+                          (math.pi, -r, 0), (math.pi * (3 / 2), 0, -r)):
+            if self.is_circle or self._cc_difference(ang) <= self.angle:
+                xs.append(x)
+                ys.append(y)
+        self._min = Point2D(min(xs) + self.c.x, min(ys) + self.c.y)
+        self._max = Point2D(max(xs) + self.c.x, max(ys) + self.c.y)
 
     @staticmethod
     def _angle_quadrant(angle):
